@@ -198,6 +198,14 @@ def run(ck: Checker):
     check_closed_conn_uncached(ck, 'C13-7')
     # ------------------------------------------------------------------ C13-4
     check_create_bookkeeping(ck, 'C13-4')
+    crt8 = mod.func('Server.create')
+    dels8 = []
+    for x in ast.walk(crt8.node):
+        if isinstance(x, ast.Call) and method_of(x)[1] in ('pop', 'popitem', 'clear') and (dotted(method_of(x)[0]) or '') in ('self.id_to_obj', 'self.id_to_refcount'):
+            dels8.append(x)
+        if isinstance(x, ast.Delete) and any((dotted(t.value) or '') in ('self.id_to_obj', 'self.id_to_refcount') for t in x.targets if isinstance(t, ast.Subscript)):
+            dels8.append(x)
+    ck.ob('C13-4', crt8, dels8[0] if dels8 else (crt8.node.lineno, 'create() removals'), not dels8, 'create() never removes a hosted object or its count' if not dels8 else f'L{dels8[0].lineno}: `{norm_text(dels8[0])[:60]}` — create() un-hosts the object when this hand-out fails, although it may be hosted already with live proxies (managed() of the same object a second time): their calls then fail with KeyError')
     # the server counts references; it never releases the resources of a hosted value itself -- a value whose count
     # reaches zero may still be owned by a hosted object that hands it out again (managed_memoryblock(self._blk)); its
     # shared memory goes when the value itself is collected (C13-5: MemoryBlock's own finaliser)
